@@ -438,7 +438,9 @@ def run_shard(cfg):
             except Exception as e:  # noqa: BLE001
                 rec.violation("C08|multi|compile", {"rules": defs}, f"{type(e).__name__}: {str(e)[:200]}")
                 continue
+            defs_before = list(defs)
             for order in (None, [n for n, _ in reversed(defs)]):
+                order_before = None if order is None else list(order)
                 names = [n for n, _ in defs] if order is None else order
                 for ni, node in enumerate(nodes):
                     rec.count("transitions")
@@ -454,6 +456,9 @@ def run_shard(cfg):
                     except Exception as e:  # noqa: BLE001
                         rec.violation(f"C08|multi|raises|{type(e).__name__}", {"rules": defs, "order": order, "node": ni}, str(e)[:200])
                         continue
+                    if defs != defs_before or (order is not None and order != order_before):
+                        rec.violation("C08|multi|arguments-modified", {"rules": defs_before, "order": order_before, "node": ni}, "the rule list / order list handed in was modified by the library")
+                        break
                     if (got is None) != (exp is None) or (got is not None and (got[0] != exp[0] or not same_caps(dict(got[1]), exp[1]))):
                         rec.violation("C08|multi|result", {"rules": defs, "order": order, "node": ni},
                                       "MultiPatternMatcher result differs from the first rule the reference accepts",
